@@ -12,8 +12,8 @@ INVS = ['FramesMatchStack', 'TopFrameVarsAreLocals', 'FrameTypeDecides', 'OneRes
         'EveryTracepointDelivers']
 
 
-def mc_cfg(shared=False, d=2, k=2):
-    return dict(constants=dict(MaxDepth=d, MaxActions=k, SharedTable=shared), invariants=INVS, deadlock=False)
+def mc_cfg(shared=False, d=2, k=2, invs=None):
+    return dict(constants=dict(MaxDepth=d, MaxActions=k, SharedTable=shared), invariants=invs or INVS, deadlock=False)
 
 
 def replay_behaviours(c, behs, wd, tagbase, independence_only=False):
@@ -143,7 +143,7 @@ def run(c):
     c.mc('Snapshot', mc_cfg(d=2, k=2), label='depth<=2, 2 tracepoints', must_cover=['Collect'])
     if not quick:
         c.mc('Snapshot', mc_cfg(d=3, k=1), label='depth<=3, 1 tracepoint')
-    c.mc_expect_violation('Snapshot', mc_cfg(shared=True, d=1, k=2), 'deviation SharedTable', what='Independent')
+    c.mc_expect_violation('Snapshot', mc_cfg(shared=True, d=1, k=2, invs=['Independent']), 'deviation SharedTable', what='Independent')
     sim = tlc.simulate('Snapshot', mc_cfg(d=3, k=2), num=60 if quick else 1500, depth=12, seed=c.seed + 1)
     c.transitions += sim.generated
     replay_behaviours(c, sim.behaviours, wd, 's')
